@@ -31,7 +31,27 @@ fn replay(hp: &HP, cfg: &Cfg, path: &str) -> i32 {
     let v: serde_json::Value = serde_json::from_str(&std::fs::read_to_string(path).expect("replay file")).expect("json");
     let case = &v["case"];
     let kind = case["kind"].as_str().unwrap_or("");
+    let sig = v["signature"].as_str().unwrap_or("");
+    if hp.prop == "C05" {
+        if let Some(r) = crate::c05x::replay_scenario(sig, case) {
+            return match r {
+                Ok(()) => {
+                    println!("replay: case passes");
+                    0
+                }
+                Err(m) => {
+                    println!("VIOLATION property={} replay={}", cfg.prop, path);
+                    println!("  what: {m}");
+                    1
+                }
+            };
+        }
+    }
+    let vchecks = hp.checks;
     let r = match kind {
+        "mtbdd-i64" => crate::vhist::vreplay::<crate::vkinds::MtI64K>(case, vchecks),
+        "mtbdd-f64" => crate::vhist::vreplay::<crate::vkinds::MtF64K>(case, vchecks),
+        "tdd" => crate::vhist::vreplay::<crate::vkinds::TddK>(case, vchecks),
         "bdd" => replay_case::<BddK>(hp.prop, case, hp.checks),
         "bcdd" => replay_case::<BcddK>(hp.prop, case, hp.checks),
         "zbdd" => replay_case::<ZbddK>(hp.prop, case, hp.checks),
